@@ -77,4 +77,137 @@ theorem examinedEqB_spec (o a b : CNetlist) : examinedEqB o a b = true ↔ exami
     unfold optAgree
     cases hx : byName (·.name) nm a.libs <;> cases hy : byName (·.name) nm b.libs <;> simp_all [libAgreeB_spec]
 
+/-! ## the restricted view and the identifier fields -/
+
+theorem guard_eq_iff {α β : Type} {no : α → Option String} {lo : List α} {f g : String → Option β} :
+    (∀ nm, guardBy (byName no nm lo) (f nm) = guardBy (byName no nm lo) (g nm)) ↔
+    (∀ nm ∈ namesOf no lo, f nm = g nm) := by
+  constructor
+  · intro h nm hnm
+    have := h nm
+    cases hb : byName no nm lo with
+    | none => exact absurd hnm (byName_none.1 hb)
+    | some x => simpa [guardBy, hb] using this
+  · intro h nm
+    cases hb : byName no nm lo with
+    | none => rfl
+    | some x =>
+      simp only [guardBy]
+      exact h nm (mem_namesOf.2 ⟨x, (byName_some hb).1, (byName_some hb).2⟩)
+
+theorem defAgreeNB_spec (a b : CNetlist) (od : Option CDef) (da db : CDef) :
+    defAgreeNB a b od da db = true ↔ defViewN a od da = defViewN b od db := by
+  rw [DefView.eq_iff]
+  cases od with
+  | none => simp [defAgreeNB, defViewN, guardBy]; tauto
+  | some o =>
+    simp only [defAgreeNB, defViewN, Option.bind_some, Bool.and_eq_true, beq_iff_eq, List.all_eq_true, decide_eq_true_eq]
+    rw [guard_eq_iff, guard_eq_iff, guard_eq_iff]
+    tauto
+
+theorem libAgreeNB_spec (a b : CNetlist) (ol : Option CLib) (la lb : CLib) :
+    libAgreeNB a b ol la lb = true ↔ libViewN a ol la = libViewN b ol lb := by
+  rw [LibView.eq_iff]
+  cases ol with
+  | none => simp [libAgreeNB, libViewN, origDef, guardBy]
+  | some o =>
+    simp only [libAgreeNB, libViewN, Bool.and_eq_true, beq_iff_eq, List.all_eq_true]
+    have hg : ∀ nm, guardBy (origDef (some o) nm) = guardBy (β := DefView) (byName (·.name) nm o.defs) := by
+      intro nm; simp [origDef]
+    simp only [hg]
+    rw [guard_eq_iff]
+    constructor
+    · intro ⟨h1, h2⟩
+      refine ⟨h1, fun nm hnm => ?_⟩
+      have := h2 nm hnm
+      unfold optAgree at this
+      cases hx : byName (·.name) nm la.defs <;> cases hy : byName (·.name) nm lb.defs <;> simp_all [defAgreeNB_spec]
+    · intro ⟨h1, h2⟩
+      refine ⟨h1, fun nm hnm => ?_⟩
+      have := h2 nm hnm
+      unfold optAgree
+      cases hx : byName (·.name) nm la.defs <;> cases hy : byName (·.name) nm lb.defs <;> simp_all [defAgreeNB_spec]
+
+theorem examinedNEqB_spec (o a b : CNetlist) : examinedNEqB o a b = true ↔ examinedN o a = examinedN o b := by
+  rw [View.eq_iff]
+  simp only [examinedNEqB, examinedN, Bool.and_eq_true, beq_iff_eq, List.all_eq_true, decide_eq_true_eq]
+  rw [guard_eq_iff]
+  constructor
+  · intro ⟨⟨h1, h3⟩, h2⟩
+    refine ⟨h1, fun nm hnm => ?_, h3⟩
+    have := h2 nm hnm
+    unfold optAgree at this
+    cases hx : byName (·.name) nm a.libs <;> cases hy : byName (·.name) nm b.libs <;> simp_all [libAgreeNB_spec]
+  · intro ⟨h1, h2, h3⟩
+    refine ⟨⟨h1, h3⟩, fun nm hnm => ?_⟩
+    have := h2 nm hnm
+    unfold optAgree
+    cases hx : byName (·.name) nm a.libs <;> cases hy : byName (·.name) nm b.libs <;> simp_all [libAgreeNB_spec]
+
+theorem DefIds.eq_iff {x y : DefIds} : x = y ↔
+    x.origId = y.origId ∧ (∀ nm, x.port nm = y.port nm) ∧ (∀ nm, x.cable nm = y.cable nm) ∧ (∀ nm, x.inst nm = y.inst nm) := by
+  constructor
+  · intro h; subst h; simp
+  · intro ⟨h1, h2, h3, h4⟩
+    cases x; cases y
+    simp only [DefIds.mk.injEq]
+    exact ⟨h1, funext h2, funext h3, funext h4⟩
+
+theorem LibIds.eq_iff {x y : LibIds} : x = y ↔ x.origId = y.origId ∧ (∀ nm, x.defn nm = y.defn nm) := by
+  constructor
+  · intro h; subst h; simp
+  · intro ⟨h1, h2⟩
+    cases x; cases y
+    simp only [LibIds.mk.injEq]
+    exact ⟨h1, funext h2⟩
+
+theorem Ids.eq_iff {x y : Ids} : x = y ↔ x.name = y.name ∧ x.origId = y.origId ∧ x.topName = y.topName ∧
+    x.topOrig = y.topOrig ∧ (∀ nm, x.lib nm = y.lib nm) := by
+  constructor
+  · intro h; subst h; simp
+  · intro ⟨h1, h2, h3, h4, h5⟩
+    cases x; cases y
+    simp only [Ids.mk.injEq]
+    exact ⟨h1, h2, h3, h4, funext h5⟩
+
+theorem defIdsEqB_spec (da db : CDef) : defIdsEqB da db = true ↔ defIds da = defIds db := by
+  rw [DefIds.eq_iff]
+  simp only [defIdsEqB, defIds, Bool.and_eq_true, List.all_eq_true, decide_eq_true_eq]
+  rw [keyed_eq_iff (va := fun _ (p : CPort) => p.origId) (vb := fun _ (p : CPort) => p.origId),
+      keyed_eq_iff (va := fun _ (c : CCable) => c.origId) (vb := fun _ (c : CCable) => c.origId),
+      keyed_eq_iff (va := fun _ (i : CInst) => i.origId) (vb := fun _ (i : CInst) => i.origId)]
+  tauto
+
+theorem libIdsEqB_spec (la lb : CLib) : libIdsEqB la lb = true ↔ libIds la = libIds lb := by
+  rw [LibIds.eq_iff]
+  simp only [libIdsEqB, libIds, Bool.and_eq_true, List.all_eq_true, decide_eq_true_eq]
+  rw [keyed_eq_iff (va := fun _ => defIds) (vb := fun _ => defIds)]
+  constructor
+  · intro ⟨h1, h2⟩
+    refine ⟨h1, fun nm hnm => ?_⟩
+    have := h2 nm hnm
+    unfold optAgree at this
+    cases hx : byName (·.name) nm la.defs <;> cases hy : byName (·.name) nm lb.defs <;> simp_all [defIdsEqB_spec]
+  · intro ⟨h1, h2⟩
+    refine ⟨h1, fun nm hnm => ?_⟩
+    have := h2 nm hnm
+    unfold optAgree
+    cases hx : byName (·.name) nm la.defs <;> cases hy : byName (·.name) nm lb.defs <;> simp_all [defIdsEqB_spec]
+
+theorem identsEqB_spec (a b : CNetlist) : identsEqB a b = true ↔ idents a = idents b := by
+  rw [Ids.eq_iff]
+  simp only [identsEqB, idents, Bool.and_eq_true, List.all_eq_true, decide_eq_true_eq]
+  rw [keyed_eq_iff (va := fun _ => libIds) (vb := fun _ => libIds)]
+  constructor
+  · intro ⟨⟨⟨⟨h1, h2⟩, h3⟩, h4⟩, h5⟩
+    refine ⟨h1, h2, h3, h4, fun nm hnm => ?_⟩
+    have := h5 nm hnm
+    unfold optAgree at this
+    cases hx : byName (·.name) nm a.libs <;> cases hy : byName (·.name) nm b.libs <;> simp_all [libIdsEqB_spec]
+  · intro ⟨h1, h2, h3, h4, h5⟩
+    refine ⟨⟨⟨⟨h1, h2⟩, h3⟩, h4⟩, fun nm hnm => ?_⟩
+    have := h5 nm hnm
+    unfold optAgree
+    cases hx : byName (·.name) nm a.libs <;> cases hy : byName (·.name) nm b.libs <;> simp_all [libIdsEqB_spec]
+
 end Spydr.Compare
